@@ -502,7 +502,12 @@ class ASTTypeBuilder:
                         [ext_field],
                     )
                 field_names.add(ext_field.name.value)
-                fields.append(self._build_input_field(ext_field))
+                # Like the fields of object type extensions, the new field
+                # must refer to the extended version of its type (which is
+                # the one the schema will register under that name).
+                new_field = self._build_input_field(ext_field)
+                new_field.type = self.extend_type(new_field.type)
+                fields.append(new_field)
 
         return InputObjectType(
             name,
